@@ -3,7 +3,7 @@
    OCaml types; nat, positive, N, Z stay Coq datatypes.  No Extract Constant of our own.
    Run with the current directory set to the output directory (driver/extracted). *)
 From Coq Require Import Extraction ExtrOcamlBasic.
-From Crusta Require Import Spec.AF Sat.Cnf Sat.Prog Model.Store Model.Encoders Model.Graph Model.Solvers.
+From Crusta Require Import Spec.AF Sat.Cnf Sat.Prog Model.Store Model.Encoders Model.Graph Model.Solvers Model.Dynamic.
 Extraction Language OCaml.
 Separate Extraction
   (* spec oracle *)
@@ -20,4 +20,6 @@ Separate Extraction
   (* SAT programs, graph algorithms, static solvers *)
   Prog.init_st Prog.log_of Prog.script_oracle Prog.run
   Graph.view_of_fw Graph.view_of_af Graph.grounded Graph.all_ccs Graph.merged_cc_of Graph.cc_new
-  Solvers.run_query.
+  Solvers.run_query
+  (* dynamic solvers *)
+  Dynamic.dyn_new Dynamic.dyn_update Dynamic.dyn_query.
